@@ -2,9 +2,9 @@
 # MANIFEST.setup_cmd: build the framework once from files on disk (warms the build cache,
 # plain and -race), then run the shim conformance (litmus) suite.
 set -u
-cd "$(dirname "$0")"
+cd "$(dirname "$0")"; HERE=$(pwd)
 export GOFLAGS=-mod=mod GOPROXY=off GOSUMDB=off GOTOOLCHAIN=local
-export GOCACHE=${GOCACHE:-/verif/.work/gocache}
+export GOCACHE=${GOCACHE:-$HERE/.work/gocache}
 mkdir -p .work/bin evidence
 go build ./... || exit 1
 for id in c01 c02 c03 c06 c07 c08 c11 c12 c13 c14 c15 c16 c20 c04seq; do
